@@ -253,6 +253,9 @@ def long_period_case(draw):
     return case
 
 
+from harness.checks.c06_fleet import fleet_case, run_fleet  # noqa: E402  (own module: its actor needs real annotations)
+
+
 def _s(brokers):
     return lambda: recurring_case(brokers)
 
@@ -267,6 +270,8 @@ CHECK = Check(
         "1-4 s, 2-4 iterations, failing attempts with retries, competing jobs under tasks_limit=1, three brokers. Oracle: per completed "
         "iteration exactly one successor (one requeue, one copy in the broker), already_tried=0, timestamp >= now (TTL restarted), "
         "now < S_next <= now+p, S_next >= S_prev+p, first run not before deferred_until, no run before its slot (1 ms). "
+        "(iii) fleet-*: one recurring job served by 2-3 workers with their own connections, stopped (and replaced) at generated instants "
+        "while the others keep running: every slot runs exactly once, slots are a full period apart, one live copy at the end. "
         "Non-trivial = >=3 iterations (worker level >=2) whose latency+duration are not all equal. cron is not exercised (croniter absent)."
     ),
     assumptions=["virtual clock / pinned clock; Redis and RabbitMQ are in-process server models", "cron excluded: croniter not installed"],
@@ -276,5 +281,8 @@ CHECK = Check(
         SubCheck("redis", _s(("redis",)), run_worker, quick=25, thorough=600),
         SubCheck("amqp", _s(("amqp",)), run_worker, quick=25, thorough=600),
         SubCheck("amqp-long-period", long_period_case, run_worker, quick=12, thorough=400),
+        SubCheck("fleet-mem", lambda: fleet_case("mem"), run_fleet, quick=10, thorough=400),
+        SubCheck("fleet-redis", lambda: fleet_case("redis"), run_fleet, quick=25, thorough=800),
+        SubCheck("fleet-amqp", lambda: fleet_case("amqp"), run_fleet, quick=15, thorough=500),
     ],
 )
